@@ -263,8 +263,23 @@ fn main() {
             coq_nlist(mpp.iter().map(|x| *x as u128)),
             coq_nlist(rpp.iter().map(|x| *x as u128)),
         );
+        // known-finding class (from the input alone): the cap `ideal + mi * ideal` is not an i64
+        // (NaN, infinite, beyond the range): `W::from_f64(..).unwrap()` panics
+        let kf = match c.mi {
+            Some(mi) if c.ws.len() == c.p0.len() && c.p0.len() == n && n > 0 && c.p0.iter().all(|x| *x <= 1) => {
+                let total: i64 = c.ws.iter().sum();
+                let ideal = total as f64 / 2.0;
+                if <i64 as coupe::num_traits::FromPrimitive>::from_f64(ideal + mi * ideal).is_none() {
+                    "\"kf\":\"fm-cap-not-representable\","
+                } else {
+                    ""
+                }
+            }
+            _ => "",
+        };
         let json = format!(
-            "{{\"graph\":{},\"weights\":{},\"partition\":{},\"max_passes\":{},\"max_moves_per_pass\":{},\"max_imbalance\":{},\"max_imbalance_bits\":{},\"max_bad_move_in_a_row\":{},\"trace\":[{}],\"impl\":{}}}",
+            "{{{}\"graph\":{},\"weights\":{},\"partition\":{},\"max_passes\":{},\"max_moves_per_pass\":{},\"max_imbalance\":{},\"max_imbalance_bits\":{},\"max_bad_move_in_a_row\":{},\"trace\":[{}],\"impl\":{}}}",
+            kf,
             json_graph(&c.adj),
             json_i64s(&c.ws),
             json_usizes(&c.p0),
